@@ -712,6 +712,10 @@ class Exec:
                 self.undo.append(("pydict", base, dict(base)))
             base[key] = v
             return
+        if isinstance(base, DictView):
+            if not isinstance(idx, str):
+                raise Unsupported("non-constant key into __dict__ @%s" % line)
+            return self.set_field(base.obj, idx, v)
         if isinstance(base, Obj):
             return self.call_method(base, "__setitem__", [idx, v], {}, line)
         raise Unsupported("item assignment on %r @%s" % (base, line))
@@ -797,7 +801,7 @@ class Exec:
             env = env.get("__closure_parent__") if isinstance(env, dict) else None
         v = self.resolve_global(fr, name)
         if v is _MISSING:
-            raise Unsupported("unresolved name %s @%s in %s" % (name, line, fr.finfo.qualname))
+            raise Unsupported("unresolved name %s @%s in %s" % (name, line, fr.finfo.qualname if fr.finfo else "<clause>"))
         return v
 
     def resolve_global(self, fr, name):
@@ -806,7 +810,11 @@ class Exec:
         mod = fr.module
         if mod is None:
             b = self.registry.models.builtin(name)
-            return b if b is not None else _MISSING
+            if b is not None:
+                return b
+            if name in ("numpy", "scipy", "math", "copy"):
+                return ModRef(name)
+            return _MISSING
         if name in mod.functions:
             return FuncRef(mod.functions[name])
         if name in mod.classes:
@@ -876,6 +884,17 @@ class Exec:
                 if name in m.imports:
                     return self._import_value(m.imports[name])
             return ModRef(dotted)
+        if isinstance(obj, DictView):
+            return obj.method(self, name, line)
+        if isinstance(obj, Obj) and name == "__class__" and hasattr(obj.cls, "lookup"):
+            return ClassRef(obj.cls)
+        if isinstance(obj, Obj) and name == "__dict__":
+            return DictView(obj)
+        if isinstance(obj, ClassRef) and name == "__new__":
+            # object.__new__ (no class in the modelled subset defines its own; checked below)
+            if obj.info.lookup("__new__") is not None:
+                raise Unsupported("class %s defines __new__" % obj.info.name)
+            return Builtin("object.__new__", lambda ex, a, k, l: Obj(a[0].info))
         if isinstance(obj, Obj):
             hooked = self.registry.models.getattr_hook(self, obj, name, line)
             if hooked is not _MISSING and hooked is not None:
@@ -1131,16 +1150,22 @@ class Exec:
         return LambdaVal(e, fr.env, fr)
 
     def ex_ListComp(self, e):
-        if len(e.generators) != 1 or e.generators[0].ifs:
+        if len(e.generators) != 1:
             raise Unsupported("comprehension form @%d" % e.lineno)
         g = e.generators[0]
         it = self.eval(g.iter)
         items = self.iterate_concrete(it, e.lineno)
         out = []
-        env = self.frames[-1].env
         for x in items:
             self.assign(g.target, x)
-            out.append(self.eval(e.elt))
+            keep = True
+            for c in g.ifs:
+                t = self.truth(self.eval(c))
+                if is_z3(t):
+                    raise Unsupported("symbolic filter in a comprehension @%d" % e.lineno)
+                keep = keep and t
+            if keep:
+                out.append(self.eval(e.elt))
         return out
 
     def ex_GeneratorExp(self, e):
@@ -1251,6 +1276,28 @@ class Exec:
 
 _MISSING = object()
 _NOKEY = object()        # a symbolic key proved different from every key that can be present
+
+
+class DictView:
+    """obj.__dict__ : a live view of the instance fields of an Obj"""
+
+    def __init__(self, obj):
+        self.obj = obj
+
+    def method(self, ex, name, line):
+        if name == "update":
+            def upd(ex_, a, k, l):
+                src = a[0]
+                items = src.obj.fields if isinstance(src, DictView) else src
+                for key, val in dict(items).items():
+                    ex_.set_field(self.obj, key, val)
+                return None
+            return Builtin("dict.update", upd)
+        if name == "items":
+            return Builtin("dict.items", lambda ex_, a, k, l: [(key, val) for key, val in self.obj.fields.items()])
+        if name == "keys":
+            return Builtin("dict.keys", lambda ex_, a, k, l: list(self.obj.fields.keys()))
+        raise Unsupported("__dict__.%s @%s" % (name, line))
 
 
 class Closure:
